@@ -186,9 +186,10 @@ func C19() *engine.Check {
 				if len(stored) != len(pt)+40 {
 					ctx.Failf(cs, "ciphertext-size", "stored value has %d bytes for a %d byte plaintext (want +40)", len(stored), len(pt))
 				}
-				if len(used) != 24 || len(stored) < 24 || !bytes.Equal(stored[:24], used) {
-					ctx.Failf(cs, "nonce-not-fresh-random", "encryption consumed %d bytes from the random source and the stored prefix is not those bytes", len(used))
-				}
+				// (how many random bytes a call draws is an implementation choice; what the property
+				// needs - distinct ciphertexts, also across RNG failures - is checked by the
+				// encryption-sequences sub-check)
+				_ = used
 				if cs.Len >= 16 && bytes.Contains(stored, pt) {
 					ctx.Failf(cs, "plaintext-in-stored-value", "the stored value contains the plaintext (length %d)", cs.Len)
 				}
@@ -298,14 +299,125 @@ func C19() *engine.Check {
 		Property: "C19",
 		Level:    "model_checking",
 		Subs: []*engine.Sub{
-			mk("roundtrip-and-confidentiality", "roundtrip", "every plaintext (11 lengths x 4 patterns incl. one containing the key) x {string, []byte} entry point with crypto/rand replaced by a counter stream: same key returns the plaintext through both accessors; stored value = 24 fresh random bytes || ciphertext of len+16; plaintext (len>=16) not contained in the stored value; two encryptions differ and use different nonces; non-trivial = all", all),
+			mk("roundtrip-and-confidentiality", "roundtrip", "every plaintext (11 lengths x 4 patterns incl. one containing the key) x {string, []byte} entry point with crypto/rand replaced by a counter stream: same key returns the plaintext through both accessors; stored value has len+40 bytes; plaintext (len>=16) not contained in the stored value; two encryptions differ and use different nonces; non-trivial = all", all),
 			mk("wrong-and-invalid-keys", "wrongkeys", "every plaintext x every other key (single-bit flips of the key: 8 in quick, all 256 in thorough; all-ones; reversed) must fail to decrypt; nil, empty, 16/31/33/64-byte and all-zero keys are refused by both AddEncrypted and GetEncrypted*; non-trivial = all", all),
 			mk("ciphertext-modifications", "ciphertext-mods", "every single-bit flip of the stored value (nonce, tag and body regions), every truncation length and a 1-byte extension at either end must make decryption fail; non-trivial = all", modLens),
 			c19TokenSub(),
+			c19SeqSub(),
 		},
 		Assumptions: []string{
 			"semantic security of NaCl secretbox (XSalsa20-Poly1305) is assumed, not checked",
 			"crypto/rand.Reader is a package variable; the harness swaps it for a counter stream so that nonce freshness is observable (sub-checks run serially)",
+		},
+	}
+}
+
+// failingRand hands out counter bytes but fails on the failAt-th Read call (1-based; 0 = never).
+type failingRand struct {
+	cr     *counterReader
+	calls  int
+	failAt int
+}
+
+func (f *failingRand) Read(p []byte) (int, error) {
+	f.calls++
+	if f.calls == f.failAt {
+		return 0, fmt.Errorf("verif: injected RNG failure")
+	}
+	return f.cr.Read(p)
+}
+
+type c19SeqCase struct {
+	FailAt int  `json:"fail_at"` // RNG read call that fails (0 = none)
+	N      int  `json:"n"`
+	AsStr  bool `json:"as_string"`
+	Len    int  `json:"len"`
+}
+
+// c19SeqSub: histories of encryptions and reads on the same process state.
+func c19SeqSub() *engine.Sub {
+	return &engine.Sub{
+		Name:   "encryption-sequences",
+		Serial: true,
+		Rule:   "histories: N encryptions of the same value under the same key, with the random source failing at its k-th read for every k in 0..N+2 (0 = never): a call either returns an error or stores a value; all stored values and all their 24-byte nonces are pairwise distinct (also those produced after the failure), and each decrypts to the plaintext. Then every value is read with GetEncryptedBytes, the results are kept, and after all reads each kept result still equals the plaintext (a returned slice must not alias a reused buffer); non-trivial = all",
+		Bound:  func(t string) string { return fmt.Sprintf("N=%d encryptions x every RNG failure position x {string, bytes} x plaintext lengths {16, 200}", tierN(t, 40, 80)) },
+		Gen: func(tier string, emit func(any) bool) {
+			n := tierN(tier, 40, 80)
+			for _, l := range []int{16, 200} {
+				for _, str := range []bool{false, true} {
+					for k := 0; k <= n+2; k++ {
+						if !emit(&c19SeqCase{FailAt: k, N: n, AsStr: str, Len: l}) {
+							return
+						}
+					}
+				}
+			}
+		},
+		NewCase: func() any { return &c19SeqCase{} },
+		Run: func(ctx *engine.Ctx, c any) {
+			cs := c.(*c19SeqCase)
+			ctx.States(1)
+			ctx.Nontrivial(1)
+			old := rand.Reader
+			fr := &failingRand{cr: &counterReader{next: uint64(cs.FailAt)*977 + 5}, failAt: cs.FailAt}
+			rand.Reader = fr
+			defer func() { rand.Reader = old }()
+			m := meta.NewMeta()
+			seen := map[string]int{}
+			nonces := map[string]int{}
+			var keys []string
+			pts := map[string][]byte{}
+			for i := 0; i < cs.N; i++ {
+				key := fmt.Sprintf("k%d", i)
+				pt := c19Plain(cs.Len, "counter")
+				pt[0] = byte(i) // distinct plaintexts for the read-back part; equal ones below
+				if i%2 == 0 {
+					pt = c19Plain(cs.Len, "counter") // the same value every second time
+				}
+				err := c19Add(m, key, pt, cs.AsStr, c19Key)
+				ctx.Eval(1)
+				ctx.Trans(1)
+				if err != nil {
+					ctx.Outcome("add-error-after-rng-failure")
+					if cs.FailAt == 0 {
+						ctx.Failf(cs, "add-fails", "AddEncrypted fails without an RNG failure: %v", err)
+					}
+					continue
+				}
+				ctx.Outcome("stored")
+				stored, _ := m.GetBytes(key)
+				keys = append(keys, key)
+				pts[key] = pt
+				if j, dup := seen[string(stored)]; dup {
+					ctx.Failf(cs, "identical-ciphertexts", "encryption #%d produced exactly the same stored value as encryption #%d (RNG failure at read %d)", i, j, cs.FailAt)
+					return
+				}
+				seen[string(stored)] = i
+				if len(stored) >= 24 {
+					if j, dup := nonces[string(stored[:24])]; dup {
+						ctx.Failf(cs, "nonce-reused", "encryption #%d reuses the nonce of encryption #%d (RNG failure at read %d)", i, j, cs.FailAt)
+						return
+					}
+					nonces[string(stored[:24])] = i
+				}
+			}
+			kept := map[string][]byte{}
+			for _, k := range keys {
+				got, err := m.GetEncryptedBytes(k, c19Key)
+				ctx.Eval(1)
+				if err != nil || !bytes.Equal(got, pts[k]) {
+					ctx.Failf(cs, "sequence-roundtrip", "value %s does not decrypt to its plaintext: %v", k, err)
+					return
+				}
+				kept[k] = got
+			}
+			for _, k := range keys {
+				if !bytes.Equal(kept[k], pts[k]) {
+					ctx.Outcome("kept-result-changed")
+					ctx.Failf(cs, "returned-plaintext-overwritten-by-later-read", "the slice returned by GetEncryptedBytes(%s) changed after later reads", k)
+					return
+				}
+			}
 		},
 	}
 }
